@@ -207,6 +207,8 @@ InfoRW(ei, ai, first) ==
       later == {RW("later.info", FALSE, {"later"}, {"later"}, [ai EXCEPT !.h = <<ExtraHdr>>, !.t = 5, !.q = <<ExtraHdr>>], NoTag)}
       n    == Len(ai.rq)
       reqs ==    {RW("rq.alter" \o At(k), TRUE, {"rq"}, {"rq"}, [ai EXCEPT !.rq[k] = @ \o "~"], Tag("request", "", k, "")) : k \in 1..n}
+            \* the same bytes under another message type (an echoed request is an Any: type AND value)
+            \cup {RW("rq.retype" \o At(k), TRUE, {"rq"}, {"rq"}, [ai EXCEPT !.rq[k] = @ \o "^"], Tag("request", "", k, "")) : k \in 1..n}
             \cup {RW("rq.drop" \o At(k), TRUE, {"rq"}, {"rq"}, [ai EXCEPT !.rq = SeqRemove(@, k)], Tag("requests.count", "", 0, Cnt(Len(ei.rq), n - 1))) : k \in 1..n}
             \cup {RW("rq.dup" \o At(k), TRUE, {"rq"}, {"rq"}, [ai EXCEPT !.rq = SeqDup(@, k)], Tag("requests.count", "", 0, Cnt(Len(ei.rq), n + 1))) : k \in 1..n}
             \cup {RW("rq.append", TRUE, {"rq"}, {"rq"}, [ai EXCEPT !.rq = Append(@, "rx")], Tag("requests.count", "", 0, Cnt(Len(ei.rq), n + 1)))}
